@@ -379,6 +379,7 @@ pub fn expect_ns(m: &Model, op: &Op) -> Expect {
                 Ok(r) => r,
                 Err(e) => {
                     x.errs = e;
+                    x.dirs = m.walked_prefix(start, path);
                     return x;
                 }
             };
@@ -471,7 +472,10 @@ pub fn expect_ns(m: &Model, op: &Op) -> Expect {
             let mut errs: Vec<EK> = Vec::new();
             let mut src_node = None;
             match &rs {
-                Err(e) => errs.extend(e.iter().copied()),
+                Err(e) => {
+                    errs.extend(e.iter().copied());
+                    x.dirs.extend(m.walked_prefix(s0, src));
+                }
                 Ok(r) => {
                     x.dirs.extend(r.via.iter().copied());
                     x.parent = r.dir;
@@ -494,7 +498,10 @@ pub fn expect_ns(m: &Model, op: &Op) -> Expect {
                 }
             }
             match &rd {
-                Err(e) => errs.extend(e.iter().copied()),
+                Err(e) => {
+                    errs.extend(e.iter().copied());
+                    x.dirs.extend(m.walked_prefix(d0, dst));
+                }
                 Ok(r) => {
                     x.dirs.extend(r.via.iter().copied());
                     x.dst_parent = r.dir;
@@ -940,10 +947,16 @@ fn step<'f>(s: &mut Sess, fs: &'f Fs, hs: &mut Vec<Option<H<'f>>>, op: &Op) {
         return;
     }
     let excl_pre: Vec<String> = if s.cfg.journal { journal_excluded(s, op, exp.as_ref()) } else { Vec::new() };
+    // C14 speaks about file handles: dropping a directory handle (a handle on the fixed root has nothing to flush at
+    // all) is not a flush point
+    let closes_file = match op {
+        Op::Close { h } => matches!(s.model.handles.get(*h), Some(Some(MH::File { .. }))),
+        _ => true,
+    };
     checks::judge(s, fs, hs, op, exp.as_ref(), &out, &pre, &log);
     if s.cfg.journal {
         // flush or drop of a file handle (a handle that is not stored is dropped inside the call)
-        let flush_point = ek == EK::Ok && matches!(op, Op::Flush { .. } | Op::Close { .. } | Op::CreateFile { slot: None, .. } | Op::OpenFile { slot: None, .. });
+        let flush_point = ek == EK::Ok && closes_file && matches!(op, Op::Flush { .. } | Op::Close { .. } | Op::CreateFile { slot: None, .. } | Op::OpenFile { slot: None, .. });
         journal_push(s, op.show(), &log, excl_pre, flush_point);
     }
     if s.violation.is_some() {
